@@ -20,7 +20,7 @@ import (
 	"verif/vsess"
 )
 
-var peerModes = []string{"peer-closes-first", "peer-closes-after-us", "peer-stream-error", "silent-until-close-deadline", "peer-closes-after-stanza-for-failing-handler"}
+var peerModes = []string{"peer-closes-first", "peer-closes-after-us", "peer-stream-error", "silent-until-close-deadline", "peer-closes-after-stanza-for-failing-handler", "close-deadline-extended-then-peer-closes-after-us"}
 var transmitOps = []string{"Send", "SendElement", "Encode", "EncodeElement", "SendIQ-result", "SendMessage-error", "SendPresence-error", "TokenWriter", "EncodeIQ-result", "TokenWriter-opened-early"}
 
 type msgStruct struct {
@@ -89,7 +89,7 @@ func body(c *nd.Ctx) nd.Result {
 		// the application never calls Close: Serve's own shutdown is the only
 		// closer, so only histories in which Serve ends by itself are meaningful
 		switch {
-		case peer == "peer-closes-after-us":
+		case peer == "peer-closes-after-us" || peer == "close-deadline-extended-then-peer-closes-after-us":
 			return nd.Result{Skip: true}
 		case peer == "peer-closes-after-stanza-for-failing-handler" && handlerMode != 2:
 			return nd.Result{Skip: true}
@@ -125,11 +125,21 @@ func body(c *nd.Ctx) nd.Result {
 		case "peer-closes-after-stanza-for-failing-handler":
 			env.PeerWrite(`<message id='in1'><body>hi</body></message>`)
 		}
+		if peer == "close-deadline-extended-then-peer-closes-after-us" {
+			// an expired close deadline is replaced by a later one before the
+			// serve loop runs: the later one is the deadline in force
+			if err := env.S.SetCloseDeadline(time.Unix(1, 0)); err != nil {
+				deadlineErr = err
+			}
+			if err := env.S.SetCloseDeadline(time.Unix(1<<40, 0)); err != nil {
+				deadlineErr = err
+			}
+		}
 		closedByPeer := false
 		var seen strings.Builder
 		env.Lib.OnWrite = func(p []byte) {
 			seen.Write(p)
-			if !closedByPeer && strings.Contains(seen.String(), "</stream:stream>") && (peer == "peer-closes-after-us" || peer == "peer-closes-after-stanza-for-failing-handler") {
+			if !closedByPeer && strings.Contains(seen.String(), "</stream:stream>") && (peer == "peer-closes-after-us" || peer == "peer-closes-after-stanza-for-failing-handler" || peer == "close-deadline-extended-then-peer-closes-after-us") {
 				closedByPeer = true
 				env.PeerWrite(`</stream:stream>`)
 			}
@@ -249,8 +259,11 @@ func body(c *nd.Ctx) nd.Result {
 	}
 	// Serve's result
 	switch peer {
-	case "peer-closes-first", "peer-closes-after-us":
-		if handlerMode != 2 || peer == "peer-closes-after-us" {
+	case "peer-closes-first", "peer-closes-after-us", "close-deadline-extended-then-peer-closes-after-us":
+		if deadlineErr != nil {
+			return fail("deadline:set-fails", "SetCloseDeadline returned %v", deadlineErr)
+		}
+		if handlerMode != 2 || peer != "peer-closes-first" {
 			// a handler whose reply is refused because the application closed the
 			// output in the meantime legitimately ends Serve with that error
 			if env.ServeErr != nil && !(handlerMode == 1 && errors.Is(env.ServeErr, xmpp.ErrOutputStreamClosed)) {
